@@ -9,12 +9,15 @@ static void list_units(const std::string& tier)
         for (const char* sh : {"S1","S2","S3"}) printf("src=%s,shape=%s,sel=all\n", k.name().c_str(), sh);
         printf("src=%s,shape=S4,sel=%s\n", k.name().c_str(), (th || k.range=='b') ? "all" : "fam");
         if (th) printf("src=%s,shape=S5,sel=%s\n", k.name().c_str(), k.range=='b' ? "all" : "fam");
+        // three levels (a skipped middle level): every function when the universe is small enough, else the structured family
+        printf("src=%s,shape=S6,sel=%s\n", k.name().c_str(), (th || k.range=='b') ? "all" : "fam");
     }
     for (const Kind& k : all_rel_kinds()) {
         printf("src=%s,shape=S1,sel=all\n", k.name().c_str());
         printf("src=%s,shape=S2,sel=%s\n", k.name().c_str(), k.range=='b' ? "all" : "fam0");
         if (th) printf("src=%s,shape=S3,sel=%s\n", k.name().c_str(), "fam0");
         if (th) printf("src=%s,shape=S4,sel=%s\n", k.name().c_str(), "fam0");
+        printf("src=%s,shape=S6,sel=%s\n", k.name().c_str(), "fam0");
     }
 }
 
